@@ -405,6 +405,8 @@ class Interp:
         import builtins as _bi
         if not hasattr(_bi, name) and name not in ('__name__', '__file__', '__doc__', '__class__', 'reveal_type'):
             raise Fail(f'name {name} is not defined in module {module}')
+        if name in ('NotImplemented', 'Ellipsis', '__debug__'):
+            return K(getattr(_bi, name))        # built-in constants are values, not callables
         return Builtin(name)
 
     TRANSPARENT_DECORATORS = ('property', 'staticmethod', 'classmethod', 'setter', 'getter', 'abstractmethod', 'lru_cache', 'cache', 'wraps', 'overload',
@@ -774,6 +776,17 @@ class Interp:
                 c, m = self.prog.find_method(a.cls, '__eq__')
                 if m is not None:
                     r = self.invoke(FuncRef(m, c.module, c), [a, b], {})
+                    if isinstance(r, K) and r.v is NotImplemented:
+                        # the comparison protocol: the reflected __eq__ of the other operand, then identity
+                        r = None
+                        if isinstance(b, Inst) and b.cls is not None:
+                            c2, m2 = self.prog.find_method(b.cls, '__eq__')
+                            if m2 is not None:
+                                r = self.invoke(FuncRef(m2, c2.module, c2), [b, a], {})
+                                if isinstance(r, K) and r.v is NotImplemented:
+                                    r = None
+                        if r is None:
+                            r = K(a is b)
                     if t is ast.NotEq:
                         if isinstance(r, Cond):
                             return Cond(r.key, not r.pol, r.desc)
@@ -954,7 +967,13 @@ class Interp:
             return None
         anyunk = False
         for it in items:
-            r = self.eq3(x, it)
+            if it is x:
+                return True             # membership short-cuts on identity
+            if any(isinstance(o, Inst) and o.cls is not None and self.prog.find_method(o.cls, '__eq__')[1] is not None for o in (x, it)):
+                rr = self.cmp(ast.Eq(), it, x, None)          # objects with their own __eq__ decide (the element is the left operand)
+                r = bool(rr.v) if isinstance(rr, K) else None
+            else:
+                r = self.eq3(x, it)
             if r is True:
                 return True
             if r is None:
@@ -1267,6 +1286,8 @@ class Interp:
         return self.getattr(v, n.attr, n)
 
     def getattr(self, v, a, n=None):
+        if a == '__class__' and not isinstance(v, Inst) and getattr(v, 'abs_attr', None) is None:
+            return self.models.builtin(self, 'type', [v], {}, n)        # x.__class__ is type(x)
         hook = getattr(v, 'abs_attr', None)
         if hook is not None:
             r = hook(self, a, n)
